@@ -425,6 +425,13 @@ def rule_ping_timeout(ck, consts):
             pings_after += 1
         return (min(closes, 2), min(pings_after, 1))
 
+    # a timeout of 0 disables the check: the timeout test folds to False for 0 and True for a positive value
+    for tn in pp.cfg.stmt_nodes(lambda n: n.kind == "test" and "timeout" in q.names_in(n.ast) and len(q.names_in(n.ast)) == 1):
+        try:
+            v0, v1 = bool(q.fold(tn.ast, {"timeout": 0})), bool(q.fold(tn.ast, {"timeout": 5}))
+        except q.NotFoldable:
+            raise AnalysisError("periodic_ping: timeout test %s does not fold" % q.unparse(tn.ast))
+        ck.ob(R, pp, tn.ast, (v0, v1) == (False, True), "the pong deadline applies only for a positive ping timeout (0 disables it)")
     tv = [q.unparse(n.ast) for n in pp.cfg.stmt_nodes(lambda n: n.kind == "test") if q.unparse(n.ast) not in (PONG, "True")]
     stip = {PONG: False}
     for t in tv:
@@ -470,8 +477,10 @@ def rule_close_payload(ck, consts):
             def part(e):
                 if isinstance(e, ast.Constant) and e.value == b"":
                     return ()
-                if q.is_call(e, "struct.pack") and len(e.args) == 2 and isinstance(e.args[0], ast.Constant) and e.args[0].value in (">H", "!H"):
-                    return (("code", X.fold_in(e.args[1], env, "?")),)
+                if q.is_call(e, "struct.pack") and len(e.args) == 2 and isinstance(e.args[0], ast.Constant):
+                    if e.args[0].value in (">H", "!H"):
+                        return (("code", X.fold_in(e.args[1], env, "?")),)
+                    return (("code packed as %r" % (e.args[0].value,), X.fold_in(e.args[1], env, "?")),)
                 if isinstance(e, ast.Call) and q.call_attr(e) in ("utf8", "encode") and (q.dotted(e.args[0]) if e.args else q.dotted(getattr(e.func, "value", None))) == rp:
                     return (("reason",),)
                 if isinstance(e, ast.BinOp) and isinstance(e.op, ast.Add):
@@ -672,6 +681,7 @@ MUTANTS = [
     ("seeded C16-adv1: close echo only `if not self.server_terminated`", _in(P13 + "._handle_message", replace_stmt(lambda st: _src(st) == "self.close(self.close_code)", lambda st: [ast.If(test=parse_expr("not self.server_terminated"), body=[st], orelse=[])])), "C16.echo"),
     ("teardown branch of close() only when we had not closed first", _in(P13 + ".close", replace_expr(lambda n: isinstance(n, ast.Attribute) and n.attr == "client_terminated" and isinstance(n.ctx, ast.Load), lambda n: parse_expr("(self.client_terminated and self._waiting is None)"))), "C16.teardown"),
     ("is_closing() ignores that we already sent our close frame", _in(P13 + ".is_closing", replace_expr(lambda n: isinstance(n, ast.BoolOp), lambda n: ast.BoolOp(op=n.op, values=n.values[:2]))), "C16.no-data-after-close"),
+    ("ping timeout 0 (disabled) closes the connection", _in(P13 + ".periodic_ping", replace_expr(lambda n: isinstance(n, ast.Compare) and _src(n) == "timeout > 0", lambda n: parse_expr("timeout >= 0"))), "C16.ping-timeout"),
     ("undo the G5-2 repair: the receive loop handles only StreamClosedError", _in(P13 + "._receive_frame_loop", _drop_handler("Exception")), "C16.notify-once"),
     ("broad loop handler returns before the close notification", _in(P13 + "._receive_frame_loop", lambda root: bool([h.body.append(parse_stmt("return")) for n in ast.walk(root) if isinstance(n, ast.Try) for h in n.handlers if h.type is not None and _src(h.type) == "Exception"])), "C16.notify-once"),
     ("close code parsed only when a reason follows (>= 2 -> > 2)", _in(P13 + "._handle_message", replace_expr(lambda n: isinstance(n, ast.Compare) and _src(n) == "len(data) >= 2", lambda n: parse_expr("len(data) > 2"))), "C16.echo"),
